@@ -151,7 +151,7 @@ def handleTags (j : Json) : Except String Json := do
     | "bool" => pure TagKind.bool
     | "arr" => pure TagKind.other
     | k => throw s!"tags: unknown kind {k}"
-  let kw := tagKeywords kind js
+  let kw := tagKeywords codeTagFacts kind js   -- the model at the facts regenerated from today's source
   if kw.unmodelled then throw "tags: a number literal outside the modelled grammar"
   if kw.nonfinite then return Json.mkObj [("serialisable", Lean.Json.bool false)]
   let m : FieldMeta := ⟨t!"F", t!"f", js, false⟩
